@@ -526,6 +526,10 @@ pub fn conflict(c: &Conflict) -> OnConflict {
             oc.do_nothing_on(k.iter().map(|x| a(x)));
         }
         Some(ConflictAction::UpdateCols(cols)) => {
+            if route(4) == 0 {
+                // an earlier do_nothing() is replaced by the update action
+                oc.do_nothing();
+            }
             if cols.len() == 1 && route(2) == 0 {
                 oc.update_column(a(&cols[0]));
             } else {
@@ -533,6 +537,9 @@ pub fn conflict(c: &Conflict) -> OnConflict {
             }
         }
         Some(ConflictAction::UpdateExprs(es)) => {
+            if route(4) == 0 {
+                oc.do_nothing();
+            }
             if route(2) == 0 {
                 for (k, e) in es {
                     oc.value(a(k), e.build());
@@ -572,8 +579,13 @@ pub fn ins(s: &Ins) -> InsertStatement {
     q.columns(s.cols.iter().map(|c| a(c)));
     match &s.source {
         InsSource::Values(rows) => {
-            if route(3) == 0 {
+            let r3 = route(4);
+            if r3 == 0 {
                 q.values_from_panic(rows.iter().map(|r| r.iter().map(|c| c.build()).collect::<Vec<_>>()));
+            } else if r3 == 1 && rows.len() >= 2 {
+                // rows accumulate over values_panic / values_from_panic calls in any split
+                q.values_panic(rows[0].iter().map(|c| c.build()).collect::<Vec<_>>());
+                q.values_from_panic(rows[1..].iter().map(|r| r.iter().map(|c| c.build()).collect::<Vec<_>>()));
             } else {
                 for r in rows {
                     let cells: Vec<SimpleExpr> = r.iter().map(|c| c.build()).collect();
